@@ -84,6 +84,10 @@ pub struct Cfg {
     pub radau_classical: bool,
     /// low-level DOPRI5 / DOP853 only: builder option stiff_test (None = default, every 1000th step)
     pub stiff_test: Option<usize>,
+    /// low-level DOPRI5 / DOP853 only: builder option beta (None = default)
+    pub beta: Option<f64>,
+    /// low-level Radau only: builder option newton_maxiter (None = default, 7)
+    pub newton_maxiter: Option<usize>,
 }
 
 impl Cfg {
@@ -113,6 +117,8 @@ impl Cfg {
             default_atol: false,
             radau_classical: false,
             stiff_test: None,
+            beta: None,
+            newton_maxiter: None,
         }
     }
     pub fn tol(mut self, rtol: f64, atol: f64) -> Self {
@@ -291,7 +297,7 @@ pub fn run_lowlevel(
             s.solve(&probe, c.x0, &c.y0, c.xend, rtol, atol, Some(&mut so))
         }
         Method::DOPRI5 => {
-            let b = DOPRI5::builder().maybe_dense_output(c.low_dense).maybe_max_step(c.max_step).maybe_first_step(c.first_step).maybe_stiff_test(c.stiff_test);
+            let b = DOPRI5::builder().maybe_dense_output(c.low_dense).maybe_max_step(c.max_step).maybe_first_step(c.first_step).maybe_stiff_test(c.stiff_test).maybe_beta(c.beta);
             let s = match c.max_steps {
                 Some(m) => b.max_steps(m).build(),
                 None => b.build(),
@@ -299,7 +305,7 @@ pub fn run_lowlevel(
             s.solve(&probe, c.x0, &c.y0, c.xend, rtol, atol, Some(&mut so))
         }
         Method::DOP853 => {
-            let b = DOP853::builder().maybe_dense_output(c.low_dense).maybe_max_step(c.max_step).maybe_first_step(c.first_step).maybe_stiff_test(c.stiff_test);
+            let b = DOP853::builder().maybe_dense_output(c.low_dense).maybe_max_step(c.max_step).maybe_first_step(c.first_step).maybe_stiff_test(c.stiff_test).maybe_beta(c.beta);
             let s = match c.max_steps {
                 Some(m) => b.max_steps(m).build(),
                 None => b.build(),
@@ -307,7 +313,7 @@ pub fn run_lowlevel(
             s.solve(&probe, c.x0, &c.y0, c.xend, rtol, atol, Some(&mut so))
         }
         Method::RADAU => {
-            let b = RADAU::builder().maybe_dense_output(c.low_dense).maybe_max_step(c.max_step).maybe_first_step(c.first_step).jac_storage(c.jac_storage.clone()).maybe_newton_tol(c.newton_tol).predictive(!c.radau_classical);
+            let b = RADAU::builder().maybe_dense_output(c.low_dense).maybe_max_step(c.max_step).maybe_first_step(c.first_step).jac_storage(c.jac_storage.clone()).maybe_newton_tol(c.newton_tol).predictive(!c.radau_classical).maybe_newton_maxiter(c.newton_maxiter);
             let s = match (c.max_steps, set_mass_storage) {
                 (Some(m), true) => b.max_steps(m).mass_storage(c.mass_storage.clone()).build(),
                 (Some(m), false) => b.max_steps(m).build(),
